@@ -10,6 +10,7 @@
 * whether `HttpHeader::getCc` (src/HttpHeader.cc) parses the joined list or each field line (flag `ccParsedPerLine`);
 * whether the 304 branch of `clientReplyContext::handleIMSReply` (src/client_side_reply.cc) releases an entry refreshed by a 304
   that carries no-store/private (flag `notModifiedHonoursNoStore`);
+* which form `httpHeaderParseInt` (src/HttpHeaderTools.cc) has (flag `parseIntStrict`);
 * USE_HTTP_VIOLATIONS (include/autoconf.h), `neighbors_do_private_keys` (src/globals.cc), the defaults of `negative_ttl`,
   `minimum_expiry_time`, `max_stale` and the stock `refresh_pattern` lines (src/cf.data.pre), REFRESH_DEFAULT_* of the built-in rule.
 """
@@ -318,6 +319,20 @@ def nm_honours_no_store(stage):
     return False
 
 
+def parse_int_strict(stage):
+    """httpHeaderParseInt: the strtol form that rejects "no digits" and values outside int (true), or the older atoi form (false)"""
+    src = strip_comments(stage.read("src/HttpHeaderTools.cc"))
+    body = norm(function_body(src, r"\bhttpHeaderParseInt\s*\(const char \*start, int \*value\)\s*\{", "httpHeaderParseInt"))
+    tail = "if (!*value && !xisdigit(*start)) {"
+    _need(tail in body, "the leading-digit test of httpHeaderParseInt")
+    old = "*value = atoi(start);" in body
+    new = ("const long res = strtol(start, &end, 10); if (end == start || errno == ERANGE || res < INT_MIN || res > INT_MAX) {" in body
+           and "*value = static_cast<int>(res);" in body)
+    if old == new:
+        raise Restructured("translate/reusable.py: httpHeaderParseInt is neither the atoi nor the range-checked strtol form (adapt the model)")
+    return new
+
+
 def lean_bytes(s):
     return "[" + ", ".join(str(b) for b in s.encode("latin-1")) + "]"
 
@@ -361,6 +376,8 @@ def generate(stage):
               "def methodNames : List String := [%s]" % ", ".join('"%s"' % mname(m) for m in methods),
               "",
               "def useHttpViolations : Bool := %s" % ("true" if violations else "false"),
+              "/-- httpHeaderParseInt rejects values without digits or outside int (strtol form) instead of truncating them (atoi form) -/",
+              "def parseIntStrict : Bool := %s" % ("true" if parse_int_strict(stage) else "false"),
               "/-- HttpHeader::getCc parses every Cache-Control field line on its own (true) or the \", \"-joined list of all lines (false) -/",
               "def ccParsedPerLine : Bool := %s" % ("true" if cc_per_line(stage) else "false"),
               "/-- the 304 branch of clientReplyContext::handleIMSReply releases the refreshed entry when the 304 carries no-store or private -/",
